@@ -18,8 +18,10 @@ import (
 )
 
 const (
-	p62 = int64(1)<<62 - 1
-	p61 = int64(1) << 61
+	farPast   = -(int64(1) << 40)
+	farFuture = int64(1) << 40
+	p62       = int64(1)<<62 - 1
+	p61       = int64(1) << 61
 )
 
 var correctVals = []int64{0, 1, -1, 2, 3, -3, p61, -p61, p62, -p62}
@@ -178,6 +180,26 @@ func checkPerms(r *mc.Run, vals []int64, stamps []int64) {
 	// timestamps are attached to positions of the sorted multiset so that
 	// equal offsets may carry different timestamps
 	type pair struct{ off, ts int64 }
+	// timestamps are seconds-resolution instants: values at or beyond +-2^40
+	// denote instants far outside 1678..2262 (the zero time.Time among them)
+	mk := func(ts int64) time.Time {
+		switch {
+		case ts <= farPast:
+			return time.Time{}.Add(time.Duration(ts-farPast) * time.Second)
+		case ts >= farFuture-1000:
+			return time.Date(2500, 1, 1, 0, 0, 0, 0, time.UTC).Add(time.Duration(ts-farFuture) * time.Second)
+		}
+		return time.Unix(0, ts)
+	}
+	un := func(t time.Time) int64 {
+		switch {
+		case t.Year() < 1000:
+			return farPast + int64(t.Sub(time.Time{})/time.Second)
+		case t.Year() >= 2400:
+			return farFuture + int64(t.Sub(time.Date(2500, 1, 1, 0, 0, 0, 0, time.UTC))/time.Second)
+		}
+		return t.UnixNano()
+	}
 	base := make([]pair, n)
 	for i := range s {
 		base[i] = pair{s[i], stamps[i%len(stamps)]}
@@ -210,7 +232,7 @@ func checkPerms(r *mc.Run, vals []int64, stamps []int64) {
 		}
 		for variant := 0; variant < 2; variant++ {
 			for i, k := range p {
-				ms[i] = measurements.Measurement{Offset: time.Duration(base[k].off), Timestamp: time.Unix(0, base[k].ts)}
+				ms[i] = measurements.Measurement{Offset: time.Duration(base[k].off), Timestamp: mk(base[k].ts)}
 			}
 			var m measurements.Measurement
 			var a, b int64
@@ -236,7 +258,7 @@ func checkPerms(r *mc.Run, vals []int64, stamps []int64) {
 			}
 			alo, ahi := tsRange(a)
 			blo, bhi := tsRange(b)
-			ts := m.Timestamp.UnixNano()
+			ts := un(m.Timestamp)
 			if ts < min(alo, blo) || ts > max(ahi, bhi) {
 				r.Fail("perm", "measurement-timestamp-outside-selected", fmt.Sprintf("order %v of %v variant %d: ts=%d, selected offsets %d,%d have ts in [%d,%d]∪[%d,%d]", p, base, variant, ts, a, b, alo, ahi, blo, bhi), in)
 			}
@@ -332,7 +354,7 @@ func TestCheck(t *testing.T) {
 				for i, c := range ci {
 					vals[i] = permVals[c]
 				}
-				for _, stamps := range [][]int64{{5}, {1, 7, 3}, {9, 2}} {
+				for _, stamps := range [][]int64{{5}, {1, 7, 3}, {9, 2}, {farPast}, {farPast, 4}, {farFuture, farPast, farFuture - 8}} {
 					checkPerms(r, vals, stamps)
 				}
 				if vals[0] != vals[n-1] {
@@ -345,6 +367,6 @@ func TestCheck(t *testing.T) {
 		}
 		r.Extra["max_n_containment"] = maxN
 		r.Extra["max_n_permutations"] = maxP
-		r.Extra["rule"] = "all multisets of n values over a 10-value boundary alphabet (|v|<2^62) x all multisets of <=floor((n-1)/3) faulty values over that alphabet plus MinInt64/MaxInt64; all distinct orderings of all multisets over a 5-value alphabet with three timestamp assignments; non-trivial = at least two distinct values or at least one faulty entry"
+		r.Extra["rule"] = "all multisets of n values over a 10-value boundary alphabet (|v|<2^62) x all multisets of <=floor((n-1)/3) faulty values over that alphabet plus MinInt64/MaxInt64; all distinct orderings of all multisets over a 5-value alphabet with six timestamp assignments (incl. the zero time and instants outside 1678..2262); non-trivial = at least two distinct values or at least one faulty entry"
 	})
 }
